@@ -137,10 +137,20 @@ func wire(w *world, cfg *Config, rng *rand.Rand) *wiring {
 				}
 			}
 		}
+		// a receiver / exporter / connector may be named more than once in a pipeline's receivers / exporters list (only repeated
+		// processors are rejected): it is still listed by that pipeline ONCE -- one instance, one path, data once per path
+		// (seeded change C09-7 delivered once per list entry)
+		repeat := func(l []string) []string {
+			if len(l) > 0 && rng.Intn(5) == 0 {
+				at := rng.Intn(len(l) + 1)
+				l = append(l[:at:at], append([]string{l[rng.Intn(len(l))]}, l[at:]...)...)
+			}
+			return l
+		}
 		wi.pipes[pipeline.MustNewIDWithName(p.Sig, w.stem+p.Name)] = &pipelines.PipelineConfig{
-			Receivers:  ids("receiver", shuffled(rng, p.R)),
+			Receivers:  ids("receiver", repeat(shuffled(rng, p.R))),
 			Processors: ids("processor", p.P),
-			Exporters:  ids("exporter", shuffled(rng, p.E)),
+			Exporters:  ids("exporter", repeat(shuffled(rng, p.E))),
 		}
 	}
 	return wi
